@@ -389,7 +389,8 @@ func c11UpFirst(s string) string {
 type c11Namer struct {
 	r         *Rng
 	used      map[string]bool
-	typeNames bool // names of types: no SCREAMING_CAPS
+	typeNames bool // names of types and throws fields: no SCREAMING_CAPS, no New…/…Args/…Result
+	topLevel  bool
 }
 
 func c11NewNamer(r *Rng) *c11Namer { return &c11Namer{r: r, used: map[string]bool{}} }
@@ -449,7 +450,7 @@ func (n *c11Namer) fresh() string {
 		}
 		// excluded: go-new-args-result-names — the Go generator appends `_` to names that start with
 		// New or end in Args/Result in some places and not in others
-		if strings.HasPrefix(c, "new") || strings.HasSuffix(c, "args") || strings.HasSuffix(c, "result") {
+		if (strings.HasPrefix(c, "new") || strings.HasSuffix(c, "args") || strings.HasSuffix(c, "result")) {
 			continue
 		}
 		// excluded: go-screaming-caps-type-name — declared as written, referenced in camel case
@@ -570,9 +571,7 @@ type c11ProgGen struct {
 	cfg  c11GenCfg
 	ctxs []*c11FileCtx
 	feat map[string]bool
-	// inConst: the value is (part of) a `const` definition. excluded: const-enum-identifier —
-	// validateConstant reads `Enum.VALUE` as include.constant and rejects the file.
-	inConst bool
+	inConst bool // the value is (part of) a `const` definition
 }
 
 func (g *c11ProgGen) baseTy() *c11GTy {
@@ -671,8 +670,8 @@ func (g *c11ProgGen) fields(c *c11FileCtx, n int, kind string, defaults bool) []
 	id := 0
 	for i := 0; i < n; i++ {
 		id += 1 + r.Intn(3)
-		if r.Chance(3) {
-			id += 1000 + r.Intn(30000)
+		if r.Chance(3) && id < 2000 {
+			id += 1000 + r.Intn(28000) // field ids are i16
 		}
 		f := &c11GField{id: id, name: fn.fresh(), t: g.anyTy(c, 2)}
 		if kind != "union" && kind != "args" && kind != "throws" {
@@ -705,7 +704,7 @@ func (g *c11ProgGen) value(c *c11FileCtx, t *c11GTy, depth int) string {
 				return ""
 			}
 			i := r.Intn(len(s.en.vals))
-			if r.Chance(30) || g.inConst {
+			if r.Chance(30) {
 				// numeric form: the value's number
 				num := 0
 				next := 0
@@ -858,6 +857,7 @@ func (g *c11ProgGen) genFile(idx int, name string, incs []*c11FileCtx) *c11FileC
 	f := &c11GFile{name: name}
 	c := &c11FileCtx{f: f, syms: map[string]*c11Sym{}, incs: map[string]*c11FileCtx{}, names: c11NewNamer(r)}
 	c.names.typeNames = true
+	c.names.topLevel = true
 	for _, ic := range incs {
 		f.includes = append(f.includes, ic.f.name+".frugal")
 		c.incs[ic.f.name] = ic
@@ -1032,6 +1032,29 @@ func (g *c11ProgGen) genFile(idx int, name string, incs []*c11FileCtx) *c11FileC
 			}
 		}
 		mn := c11NewNamer(r)
+		// a service may not redefine a method of a service it extends (directly or not)
+		ac, an := c, s.ext
+		for hops := 0; an != "" && hops < 50; hops++ {
+			if i := strings.Index(an, "."); i >= 0 {
+				ac, an = ac.incs[an[:i]], an[i+1:]
+				if ac == nil {
+					break
+				}
+			}
+			var as *c11GService
+			for _, o := range ac.f.services {
+				if o.name == an {
+					as = o
+				}
+			}
+			if as == nil {
+				break
+			}
+			for _, m := range as.methods {
+				mn.used[c11Canon(m.name)] = true
+			}
+			an = as.ext
+		}
 		nm := 1 + r.Intn(4)
 		if r.Chance(6) {
 			nm = 0
@@ -1041,6 +1064,10 @@ func (g *c11ProgGen) genFile(idx int, name string, incs []*c11FileCtx) *c11FileC
 		}
 		for j := 0; j < nm; j++ {
 			m := &c11GMethod{name: mn.fresh()}
+			// assumption: a method is not named like a member of the generated client (c, methods)
+			for strings.ToLower(m.name) == "c" || strings.ToLower(m.name) == "methods" {
+				m.name = mn.fresh()
+			}
 			m.args = g.fields(c, r.Intn(4), "args", false)
 			if r.Chance(20) {
 				m.oneway = true
